@@ -18,7 +18,7 @@ RULE = ('(A) Hypothesis token-spelling sequences over the full token alphabet - 
         'single token. (B) raw text over a lexer-biased alphabet: same differential. (C) layout metamorphosis: the token '
         'sequence of a generated whole program rendered with two random layouts (empty separators wherever the reference '
         'says neighbours cannot merge) must lex to the same tokens and compile to the same instruction stream (comment lines '
-        'stripped). (D) flavoured twins: every name (ASCII head, tail of ASCII / non-ASCII letters, digits and marks) that lexes as one plain identifier must lex as one identifier of the same base name under either flavour sigil - a self-consistency relation that needs no reference and therefore also covers non-ASCII names. Non-trivial: texts with an empty separator between two tokens, a non-decimal integer, an escape, a '
+        'stripped). (D) flavoured twins: every name (ASCII head, tail of ASCII / non-ASCII letters, digits and marks) that lexes as one plain identifier must lex as one identifier of the same base name under either flavour sigil - a self-consistency relation that needs no reference and therefore also covers non-ASCII names. (E) gaps: one separator of a generated program replaced by 40-5000 token-free lines (blank, whitespace, comments) must change neither tokens nor instructions. Non-trivial: texts with an empty separator between two tokens, a non-decimal integer, an escape, a '
         'non-ASCII character or a comment directly after a token. Distinct by hash of the text.')
 ASSUMPTIONS = ['reference tokenizer ref/lex.py (README literal forms + tests/test_lexer.py as documentation)',
                'domain: ASCII identifiers; whitespace = space, tab, LF, FF, VT; texts with CR, other control characters or '
@@ -310,8 +310,44 @@ def twin_names():
     return st.builds(lambda h, t: h + ''.join(t), st.sampled_from(list('abxyzABZ_')), st.lists(tail, min_size=0, max_size=8))
 
 
+def check_gaps(stats, case, gap_lines, where, filler):
+    """Layout metamorphosis at scale: one separator of the program is replaced by `gap_lines` lines that contain no token
+    (blank, whitespace-only, comment lines).  Tokens and emitted instructions must not change."""
+    from hast.printer import tokens_of
+    prog, vals, ws = case
+    toks = tokens_of(prog)
+    if len(toks) < 4:
+        raise Discard('tiny program')
+    k = [0, len(toks) // 2, len(toks) - 1, len(toks)][where % 4]
+    fill = {'blank': '\n', 'spaces': '   \t\n', 'comment': '// filler ; { } " \' text\n', 'mixed': '\n  // c\n\t\n'}[filler]
+    gap = fill * (gap_lines if filler != 'mixed' else gap_lines // 3 + 1)
+    compact = ' '.join(toks)
+    wide = ' '.join(toks[:k]) + '\n' + gap + ' '.join(toks[k:])
+    stats.evaluated()
+    stats.cls('gap_%s' % filler)
+    stats.nt('gap:%d:%d:%s:%s' % (gap_lines, where % 4, filler, compact[:40]))
+    a, b = hidc_tokens(compact), hidc_tokens(wide)
+    if isinstance(a, tuple):
+        raise Discard('base does not lex')
+    strip = lambda ts: [(t[0], t[1]) for t in ts] if isinstance(ts, list) else ts      # noqa
+    if strip(a) != strip(b):
+        return ('gap_tokens', 'a gap of %d token-free lines (%s) at token %d changes the token sequence: %r' % (gap_lines, filler, k, b if isinstance(b, tuple) else 'different tokens'))
+    try:
+        la = H.compile_source(compact, ws, 400, False)
+    except H.CompilerError:
+        raise Discard('program rejected')
+    try:
+        lb = H.compile_source(wide, ws, 400, False)
+    except H.CompilerError as e:
+        return ('gap_reject', 'a gap of %d token-free lines (%s) at token %d makes the program fail to compile: %s' % (gap_lines, filler, k, e))
+    code = lambda ls: [l for l in ls if not l.lstrip().startswith(b';')]      # noqa
+    if code(la) != code(lb):
+        return ('gap_code', 'a gap of %d token-free lines (%s) changes the emitted instructions' % (gap_lines, filler))
+    return None
+
+
 def shards(tier):
-    return [('twin', 0)] + [('spelled', k) for k in range(8)] + [('raw', k) for k in range(4)] + [('layout', k) for k in range(4)] + \
+    return [('twin', 0), ('gaps', 0)] + [('spelled', k) for k in range(8)] + [('raw', k) for k in range(4)] + [('layout', k) for k in range(4)] + \
         ([('atheris', k) for k in range(4)] if tier == 'thorough' else [])
 
 
@@ -330,6 +366,17 @@ def run_shard(desc, seed, tier):
                                        'empty @is_you() { write("hi"); /* x */ }']
         for sig, msg, text in campaign('c12', derive_seed(seed, 'C12', kind, k), 400000, seeds, stats, recheck):
             stats.violation({'kind': 'text', 'text': text, 'message': msg, 'signature': sig + ':atheris'})
+        return stats
+    if kind == 'gaps':
+        strat = st.tuples(programs(features=SEQ_FEATURES, size=dict(main_stmts=4, funcs=2)),
+                          st.sampled_from([40, 300, 900, 1100, 1600, 2500, 5000]), st.integers(0, 3), st.sampled_from(['blank', 'spaces', 'comment', 'mixed']))
+
+        def chk_gap(v):
+            return check_gaps(stats, v[0], v[1], v[2], v[3])
+        from harness.progcase import case_json
+        search(strat, chk_gap, seed=derive_seed(seed, 'C12', kind, k), max_examples=60 if tier == 'quick' else 600, stats=stats,
+               to_case=lambda v, m: dict(case_json(*v[0]), gap=[v[1], v[2], v[3]], kind='gaps', message=m))
+        stats.sample({'kind': 'gaps', 'note': 'one separator replaced by 40..5000 token-free lines'})
         return stats
     if kind == 'twin':
         def chk_twin(name):
@@ -368,7 +415,10 @@ def run_shard(desc, seed, tier):
 
 def replay(case):
     try:
-        if case['kind'] == 'twin':
+        if case['kind'] == 'gaps':
+            from harness.progcase import case_from_json
+            r = check_gaps(Stats(), case_from_json(case), *case['gap'])
+        elif case['kind'] == 'twin':
             r = check_twin(Stats(), case['text'])
         elif case['kind'] == 'text':
             r = check_text(Stats(), case['text'])
